@@ -179,7 +179,10 @@ def run_tlc(
     if "Parsing or semantic analysis failed" in out or "***Parse Error***" in out:
         bad = True
     if bad and not (expect_fail and r.violated):
-        head = "\n".join(out.splitlines()[:60])
+        lines = out.splitlines()
+        k = next((i for i, ln in enumerate(lines) if ln.startswith("Error:") or "***Parse Error***" in ln
+                  or "Semantic errors" in ln), None)
+        head = "\n".join(lines[k:k + 40] if k is not None else lines[:60])
         raise MachineryError(f"TLC failed on {spec.name} (rc={p.returncode}):\n{head}")
     return r
 
